@@ -165,7 +165,7 @@ func init() {
 		Level:     "exploration",
 		Technique: "property-based testing (rapid) with a position-tracking printer as oracle; exhaustive truncation at every byte offset and error injection at every token boundary of generated templates",
 		Rule: "model programs printed under spellings that put newlines, tabs and CRLF anywhere the spelling allows (text, string literals, comments, between tokens of multi-line tags), with multi-byte characters: (p) positions of every node of the parsed tree against the printer's line / byte column of each anchor token (first byte of a text run, of '{{', of a tag's name, of a literal or name, of the name of a called function or applied filter, of the first word of a test; for strings the quote or the first content byte); " +
-			"(t) every byte offset of every generated template as truncation point - inside a delimiter pair or an open body-carrying construct Parse must return an error; (i) at every token boundary of every tag: an unknown tag name, an illegal character (! $ @ `) or a surplus number literal before the closing delimiter - Parse must return an error located at that token; " +
+			"(t) every byte offset of every generated template as truncation point - inside a delimiter pair or an open body-carrying construct Parse must return an error; (i) at every token boundary of every tag: an unknown tag name, an illegal character (! $ @ `), a number where a name is required (set / block / macro / both variables of a for) or a surplus number literal before the closing delimiter - Parse must return an error located at that token; " +
 			"(m) marker templates assembled from fragments with line breaks in text, comments, strings, interpolations, verbatim sections and tags: every name mk<k>z and number 9<kk> occurs once and its node must report the line / byte column where it is found (inside interpolations too), an unknown tag appended must be reported at its name; " +
 			"(n) a broken template loaded by name through memory and filesystem loaders, directly and via include / extends / import - the error identifies the template. " +
 			"Non-trivial: (p) the template spans >= 2 lines; (t)/(i) the fault lies on a line > 1 or inside a nested construct; distinct by (source, fault).",
@@ -415,6 +415,24 @@ func init() {
 				if i > 0 && tk.Kind == "word" && (toks[i-1].S == "." || toks[i-1].S == "|") && toks[i-1].Kind != "text" {
 					whats = append(whats, "bad-operand") // a string where an attribute or filter name belongs
 				}
+				// a number where the grammar wants a name: the variable of a set,
+				// the name of a block or macro, either variable of a for
+				if tk.Kind == "word" && i >= 2 {
+					head := func(j int, names ...string) bool {
+						if j < 1 || toks[j].Kind != "word" || toks[j-1].Kind != "open" {
+							return false
+						}
+						for _, n := range names {
+							if toks[j].S == n {
+								return true
+							}
+						}
+						return false
+					}
+					if head(i-1, "for", "set", "block", "macro") || (toks[i-1].S == "," && head(i-3, "for")) {
+						whats = append(whats, "bad-name")
+					}
+				}
 				for _, w := range whats {
 					cs := *base
 					cs.Kind, cs.At, cs.What = "inject", i, w
@@ -482,6 +500,8 @@ func c20Inject(toks []m.Tok, pos []m.Pos, src string, cs *c20Case) (string, int,
 		return src[:at] + ch + " " + src[at:], line, col, true
 	case cs.What == "bad-operand":
 		return src[:at] + "'q'" + src[at+len(toks[i].S):], line, col, true
+	case cs.What == "bad-name":
+		return src[:at] + "9" + src[at+len(toks[i].S):], line, col, true
 	case cs.What == "surplus":
 		if toks[i].Kind != "close" {
 			return "", 0, 0, false
